@@ -911,8 +911,10 @@ outer:
 				if rn == '{' {
 					buf.Reset()
 					for {
-						rn, _, _ := r.ReadRune()
-						if rn == '}' {
+						rn, _, err := r.ReadRune()
+						if err != nil || rn == '}' {
+							// (a class name that is not terminated has
+							// been reported by the grammar parser)
 							break
 						}
 						buf.WriteRune(rn)
